@@ -89,6 +89,11 @@ static bool make_plan(const Entry& e, Plan& p) {
 			if (orig != NIF_NPOS) { vals.push_back(orig + 1); if (orig > 0) vals.push_back(orig - 1); }
 			std::set<std::string> seen;
 			for (uint32_t v = 0; v < h.nblocks; v++) if (seen.insert(p.types[v]).second) vals.push_back(v); // one block of every type (wrong-type targets)
+			// siblings: other blocks of the type the field points to now (right type, other object: tables of another size)
+			if (orig < h.nblocks) {
+				int sib = 0;
+				for (uint32_t v = 0; v < h.nblocks && sib < 4; v++) if (v != orig && p.types[v] == p.types[orig]) { vals.push_back(v); sib++; }
+			}
 		}
 		std::vector<uint32_t> uniq;
 		std::set<uint32_t> s;
@@ -270,7 +275,7 @@ int main(int argc, char** argv) {
 		top);
 	top.set_info("rule", vf::strf("fault placements = every 4-byte block reference field written by a raw save of the entry (offsets from the reference hook) x values "
 								  "{empty, block count, count+1, 0x7FFFFFFF, own index, each ancestor, every in-range index (<= 16 blocks) or first/last/+-1/one block "
-								  "per type}; up to %d simultaneous faults (all pairs and reduced triples on files <= 8 blocks, same-block pairs otherwise); a placement "
+								  "per type/up to 4 other blocks of the type pointed to}; up to %d simultaneous faults (all pairs and reduced triples on files <= 8 blocks, same-block pairs otherwise); a placement "
 								  "is non-trivial when the patched value differs from the original (always, by construction); each runs Load, query battery, copy, "
 								  "default Save, reload under ASan+UBSan with a %d s watchdog",
 								  max_simul, g_watchdog));
